@@ -631,6 +631,8 @@ static int32_t pstm_sqr_comba_gen(psPool_t *pool, const pstm_int *A,
  */
     iz  = B->used;
     B->used = pa;
+    /* a square is never negative; B may hold an older negative value, or be A itself */
+    B->sign = PSTM_ZPOS;
     {
         pstm_digit *tmpc;
         tmpc = B->dp;
